@@ -152,6 +152,9 @@ func minimise(c batchCase, err error) (batchCase, error) {
 	real := false
 	if ok, _ := oracle(files, c, stage, false); !ok {
 		real = true // only the real build / the running program shows it
+		if ok, _ := oracle(files, c, stage, true); !ok {
+			return c, fmt.Errorf("%v [the set alone, in a program of its own, does not show it]", err)
+		}
 	}
 	budget := 60 * time.Second
 	if real {
